@@ -597,6 +597,20 @@ class BaseWorld:
                 ex.aborting = True
             raise Spin('waiting for a lock held by a suspended client')
 
+    def preconnect(self, handle, ident):
+        """open the connection client `ident` = (pid, tid) uses on `handle` now, outside the counted events (a client that has used the
+        cache before does not run the connection set-up inside the call under test)"""
+        old = (self.pid, self.tid)
+        was = self.counting
+        self.counting = False
+        self.pid, self.tid = ident
+        try:
+            for h in getattr(handle, '_shards', None) or [handle]:
+                h._con
+        finally:
+            self.pid, self.tid = old
+            self.counting = was
+
     def interleave(self, fa, fb, a_at, b_at, id_a=(100, 1), id_b=(200, 1)):
         """run fa and fb as two clients that are both suspended part-way (see Interleaver); returns True if B ran inside A"""
         il = Interleaver(self, a_at, b_at, {'A': id_a, 'B': id_b})
@@ -657,7 +671,7 @@ class BaseWorld:
                 raise Crash()
         # injected faults: any statement except COMMIT/ROLLBACK (a failing COMMIT is an I/O failure, i.e. a crash point: C07)
         # and any file create/write/close (failing removals only leave debris and are outside the claim)
-        if self.fault_at is not None and not (kind == 'sql' and detail.split(' ')[0] in ('COMMIT', 'ROLLBACK')) \
+        if self.fault_at is not None and not (kind == 'sql' and detail.split(' ')[0] in ('COMMIT', 'ROLLBACK', 'after')) \
                 and not (kind == 'fs' and detail.split(':')[0] in ('remove', 'removedirs', 'rmdir', 'stat', 'scandir', 'listdir', 'read')) \
                 and (self.fault_at == i):
             zpath.flag('fault_injected')
@@ -723,6 +737,10 @@ class World(BaseWorld):
 
     # ---- clock
     def time(self):
+        import sys as _sys
+        if _sys._getframe(1).f_code.co_name in ('_execute_with_retry', 'reset'):
+            # the 60 s deadlines of Cache._sql_retry and of the PRAGMA loop in Cache.reset: not a reading of the cache's clock (the wait is modelled by outcome, not by duration)
+            return 0.0
         if self.clock_fn is not None:
             return self.clock_fn()
         k = len(self.times)
@@ -788,7 +806,7 @@ class World(BaseWorld):
             basename=posixpath.basename)
         osm.path = opm
         tm = types.SimpleNamespace(time=self.time, sleep=self.sleep, monotonic=self.time)
-        th = types.SimpleNamespace(local=lambda: Local(w), get_ident=lambda: w.tid, Thread=None)
+        th = types.SimpleNamespace(local=lambda: Local(w), get_ident=lambda: w.tid, get_native_id=lambda: 70000 + w.tid, Thread=None)
         self._bind_modules(sq, self.fs.open, osm, opm, tm, th)
         self.tmp_ctr = 0
 
